@@ -132,6 +132,9 @@ func (h *runner) check(q query, phase string) {
 	if q.limit > 0 || q.offset > 0 {
 		c.Count("query:limit/offset")
 	}
+	if nonEmpty && (q.interval > 0 || q.limit > 0) {
+		c.Sample(fmt.Sprintf("%s  ->  %s  (same under %d configurations)", q.sql(), clip(first), len(h.configs)))
+	}
 	c.Case(fmt.Sprintf("%d/%s/%s", h.idx, q.opText(), phase), nonEmpty)
 }
 
